@@ -38,6 +38,7 @@ LEVEL_TEXT = (
     "one process is executed; every run must return what a plain key->value map would (stored value for stored keys, "
     "fresh value otherwise) and compute exactly the missing keys."
     ' Also: scan.steady_state through the cache, a user-supplied JSON naming / storage scheme, results that are legitimately None, key sets with one integer among floats, dotted strings, tuples of floats, and 25-40 keys; histories include runs over the tail / the reverse of the key list.'
+    " The other way a run ends early - an exception from outside (Ctrl-C) - is enumerated too: raised before every file-system event, inside every write and inside the producer of the data (before it hands anything to the file, and part-way); the process lives on, the library's clean-up code runs, and the rerun must again return every result."
 )
 LEVEL_NOTE = "fault model: process kill (everything handed to the OS persists, nothing after the kill happens); power-loss reordering of unsynced writes is out of scope; trusted: the shim's interception of io.open/os.* and its model of Python-level write buffering (validated against real SIGKILL runs)"
 RULE = (
@@ -208,10 +209,10 @@ def fresh_dir(tag):
     return d
 
 
-def clean_events(kind, keys, tag="clean"):
+def clean_events(kind, keys, tag="clean", interrupt=False):
     base = fresh_dir(tag)
     cache_dir = base / "cache"
-    with FaultFS(cache_dir) as fs:
+    with FaultFS(cache_dir, interrupt=interrupt) as fs:
         run_cached(kind, keys, cache_dir)
     ev = list(fs.events)
     shutil.rmtree(base, ignore_errors=True)
@@ -237,7 +238,7 @@ def check(case):
 
     warnings.simplefilter("ignore")
     mode = case["mode"]
-    if mode == "crash":
+    if mode in ("crash", "interrupt"):
         return check_crash(case)
     if mode == "product":
         return check_product(case)
@@ -369,10 +370,14 @@ def check_crash(case):
     calls_dir.mkdir()
     try:
         crashed = False
-        with FaultFS(cache_dir, plan) as fs:
+        with FaultFS(cache_dir, plan, interrupt=case["mode"] == "interrupt") as fs:
             try:
                 run_cached(kind, keys, cache_dir)
             except Crash:
+                crashed = True
+            except KeyboardInterrupt:
+                if case["mode"] != "interrupt":
+                    raise
                 crashed = True
         if case.get("events_prefix") is not None:
             # temporary names may embed the process id: compare with long digit runs masked
@@ -384,13 +389,14 @@ def check_crash(case):
             if mine[: plan[0]] != [tuple(x) for x in clean[: plan[0]]]:
                 raise HarnessError(f"event log diverged from the clean run before the crash point: {mine[: plan[0]]} vs {clean[: plan[0]]}")
         if not crashed and plan[0] < case["n_events"]:
-            return outcome(False, "crash-swallowed", symptom="crash-swallowed", detail=f"the library caught the simulated death (BaseException) | {txt}")
+            return outcome(False, "crash-swallowed", symptom="crash-swallowed" if case["mode"] == "crash" else "interrupt-swallowed",
+                           detail=f"the library caught the simulated {'death' if case['mode'] == 'crash' else 'interrupt'} (BaseException) | {txt}")
         nontrivial = plan[0] >= 1
         left = snapshot(cache_dir)
         bad = _recover(kind, keys, cache_dir, calls_dir, nontrivial, txt + f" left={sorted((left or {}).keys())}")
         if bad is not None:
             return bad
-        return outcome(True, "recovered" if crashed else "uninterrupted", nontrivial=nontrivial, extra={"crash_states": 1})
+        return outcome(True, ("recovered" if case["mode"] == "crash" else "recovered-after-interrupt") if crashed else "uninterrupted", nontrivial=nontrivial, extra={"crash_states": 1})
     finally:
         shutil.rmtree(base, ignore_errors=True)
 
@@ -525,6 +531,16 @@ def generate(tier):
         for plan in plans:
             cases.append({"mode": "crash", "keyset": ks, "kind": kind, "keys": [list(k) if isinstance(k, tuple) else k for k in keys],
                           "plan": list(plan), "n_events": len(ev), "events_prefix": [list(e[:3]) for e in ev]})
+    # the other way a run ends early: an exception from outside (Ctrl-C) at every event and at the first / middle / last
+    # byte of every write; the process lives on, so the library's own clean-up code runs before the rerun
+    for ks, kind in (("ints", "dict"), ("strs", "frame"), ("tuples", "dict"), ("ints", "optional")) + ((("ints", "simulation"),) if tier == "thorough" else ()):
+        keys = KEYSETS[ks]
+        ev = clean_events(kind, keys, tag=f"gen-int-{ks}-{kind}", interrupt=True)
+        for i, (ekind, _path, n, _c) in enumerate(ev):
+            offsets = [None] + (sorted({1, n // 2, n - 1} - {0}) if ekind in ("write", "uwrite") and n and n > 1 else [])
+            for b in offsets:
+                cases.append({"mode": "interrupt", "keyset": ks, "kind": kind, "keys": [list(k) if isinstance(k, tuple) else k for k in keys],
+                              "plan": [i, b], "n_events": len(ev), "events_prefix": [list(e[:3]) for e in ev]})
     # parallel reruns on products of per-key crash states
     for kind in ("dict", "frame") if tier == "thorough" else ("dict",):
         keys = KEYSETS["ints"]
